@@ -364,7 +364,7 @@ def r5_one_process_per_layer(ctx, rep, R='C03.R5'):
         from .common import reaching_defs
         src = reaching_defs(gr, starts[0], recv)
         oks = len(src) == 1 and isinstance(src[0], ast.Call) and \
-            isinstance(src[0].func, ast.Attribute) and src[0].func.attr == 'pop' and \
+            isinstance(src[0].func, ast.Attribute) and src[0].func.attr in ('pop', 'popleft') and \
             dotted(src[0].func.value) == ready
     rep.check(oks, R, 'resume_tests: each thread is started once (popped from the ready list, then '
               'started)', 'threads are not started exactly once each', key='start-once',
